@@ -180,13 +180,14 @@ end J2kQuant
 namespace J2kQuant
 open Gen.J2kQuant
 
-theorem resLoop_spec : ∀ (n res idx : Nat) (L : Nat), 1 ≤ res → res + n = L + 1 → idx = 1 + (res - 1) * 3 →
-    ∀ t ∈ resLoop n res idx, 1 ≤ t.1 ∧ t.1 ≤ L ∧ 1 ≤ t.2.1 ∧ t.2.1 ≤ 3 ∧
-      (t.2.2 : Int) = subbandIndex L t.1 t.2.1
-  | 0, _, _, _, _, _, _ => by intro t ht; simp [resLoop] at ht
+theorem resLoop_spec (step : Int → Int) (hs : ∀ i, step i = i + 1) : ∀ (n res : Nat) (idx : Int) (L : Nat), 1 ≤ res → res + n = L + 1 →
+    idx = 1 + ((res : Int) - 1) * 3 →
+    ∀ t ∈ resLoopWith step n res idx, 1 ≤ t.1 ∧ t.1 ≤ L ∧ 1 ≤ t.2.1 ∧ t.2.1 ≤ 3 ∧
+      t.2.2 = subbandIndex L t.1 t.2.1
+  | 0, _, _, _, _, _, _ => by intro t ht; simp [resLoopWith] at ht
   | n + 1, res, idx, L, h1, h2, h3 => by
     intro t ht
-    simp only [resLoop, List.mem_cons] at ht
+    simp only [resLoopWith, List.mem_cons, hs] at ht
     have hsi : ∀ band : Nat, 1 ≤ band → band ≤ 3 → subbandIndex L res band = 1 + ((res : Int) - 1) * 3 + ((band : Int) - 1) := by
       intro band hb1 hb3
       simp only [subbandIndex]
@@ -196,18 +197,18 @@ theorem resLoop_spec : ∀ (n res idx : Nat) (L : Nat), 1 ≤ res → res + n = 
       simp [a2, a3]; omega
     rcases ht with rfl | rfl | rfl | ht
     · refine ⟨h1, by show res ≤ L; omega, by show 1 ≤ 1; omega, by show 1 ≤ 3; omega, ?_⟩
-      show ((idx : Nat) : Int) = subbandIndex L res (1 : Nat)
+      show idx = subbandIndex L res (1 : Nat)
       rw [hsi 1 (by omega) (by omega)]; omega
     · refine ⟨h1, by show res ≤ L; omega, by show 1 ≤ 2; omega, by show 2 ≤ 3; omega, ?_⟩
-      show ((idx + 1 : Nat) : Int) = subbandIndex L res (2 : Nat)
+      show idx + 1 = subbandIndex L res (2 : Nat)
       rw [hsi 2 (by omega) (by omega)]; omega
     · refine ⟨h1, by show res ≤ L; omega, by show 1 ≤ 3; omega, by show 3 ≤ 3; omega, ?_⟩
-      show ((idx + 2 : Nat) : Int) = subbandIndex L res (3 : Nat)
+      show idx + 1 + 1 = subbandIndex L res (3 : Nat)
       rw [hsi 3 (by omega) (by omega)]; omega
-    · exact resLoop_spec n (res + 1) (idx + 3) L (by omega) (by omega) (by omega) t ht
+    · exact resLoop_spec step hs n (res + 1) (idx + 1 + 1 + 1) L (by omega) (by omega) (by omega) t ht
 
-theorem resLoop_length : ∀ n res idx, (resLoop n res idx).length = 3 * n
+theorem resLoop_length (step : Int → Int) : ∀ n res idx, (resLoopWith step n res idx).length = 3 * n
   | 0, _, _ => rfl
-  | n + 1, res, idx => by simp [resLoop, resLoop_length n]; omega
+  | n + 1, res, idx => by simp [resLoopWith, resLoop_length step n]; omega
 
 end J2kQuant
